@@ -16,7 +16,8 @@ RULE = ('Collections of 1..5 series (10 in the thorough tier), one case in 6 wit
         'fixed point, (iv) changing / adding unselected series leaves the result bitwise unchanged, (v) the sum of squared '
         'reference DTW distances does not increase, (vi) dba_loop(max_it=m, keep_averages=True) performs <= m steps, each '
         'satisfying (v), and does not modify c. Non-trivial: >= 2 selected series, len(c) >= 2, and at least one optimal '
-        'path has a non-diagonal step.')
+        'path has a non-diagonal step.'
+        ' Without an initial average (c=None; dba and dba_loop, both engines) under a mask with unselected series: replacing the unselected series must not change the result.')
 ASSUMPTIONS = ['default inner distance; no psi / max_step (DBA needs an admissible alignment for every series)',
                'values |x| <= 1e3']
 
